@@ -2,7 +2,7 @@
 import common, schema, histgen, p_hist
 THEOREMS = ["C01_block_bytes_roundtrip", "C01_records_kept", "C01_index_denotes", "C01_statistics", "C01_aec_totals", "C01_decode_inverts_build",
             "C01_decode_inverts_build_mm", "C01_decode_aec_key", "C01_block_reads_back", "C01_view_is_log", "C01_end_to_end", "C01_hypotheses_decidable",
-            "C01_end_to_end_nonvacuous", "C01_log_aec_one_pass", "C01_nonvacuous"]
+            "C01_end_to_end_nonvacuous", "C01_log_aec_one_pass", "C01_nonvacuous", "C01_ancount_narrowing_is_identity"]
 EXTRA_PROPERTY_FILES = ("Properties_format", "Properties_encoder", "Properties_builder")   # obligations over the regenerated Gen_format.v / Gen_encoder.v (translator/format.py, encoder.py)
 def gen_cases(sch, tier, rng):
     cases = []
